@@ -56,6 +56,11 @@ def body(case, acc):
     try:
         data, delimited = write(case)
     except Exception as exc:  # noqa: BLE001
+        if case.get("with_namespaces") and "cannot hold all the entries" in str(exc):
+            # the namespace scenarios include tables too small for a statement (C14/C18's subject): outside C03's domain
+            if acc is not None:
+                acc.case(case, False, ["refused_tiny_table"])
+            return None
         return Violation(f"C03:write-raises:{type(exc).__name__}", f"serialisation raised {exc!r}", case)
     if not data and not case["statements"]:
         if acc is not None:
